@@ -30,8 +30,10 @@ class ChunkedReader:
                 except StopIteration:
                     self.parser = None
                     break
-                except Exception:
-                    # the framing of this body is broken: whatever follows
+                except BaseException:
+                    # the framing of this body is broken, or reading it was
+                    # interrupted (gevent.Timeout and friends are not
+                    # Exceptions) and its state is lost: whatever follows
                     # on the connection must not be read as a request,
                     # even if the application swallows this error
                     self.req.force_close()
@@ -153,12 +155,18 @@ class LengthReader:
             return b""
 
         buf = io.BytesIO()
-        data = self.unreader.read()
-        while data:
-            buf.write(data)
-            if buf.tell() >= size:
-                break
+        try:
             data = self.unreader.read()
+            while data:
+                buf.write(data)
+                if buf.tell() >= size:
+                    break
+                data = self.unreader.read()
+        except BaseException:
+            # the read was interrupted (a timeout of the application, for
+            # example): what has been received still belongs to this body
+            self.unreader.unread(buf.getvalue())
+            raise
 
         buf = buf.getvalue()
         ret, rest = buf[:size], buf[size:]
